@@ -27,13 +27,11 @@ RULE = ("generated project trees (flat/src package, single module, custom packag
 ASSUMPTIONS = [
     "pathlib.Path.glob of CPython 3.12 and fnmatch.translate are modelled by `globMatch`/`fnmatch` (tied by the glob/fnmatch streams); "
     "patterns containing `..` and absolute patterns are outside the model and not generated",
-    "no symbolic links, no build script / generate-setup-file, POSIX case-sensitive file system, ASCII file names "
-    "(git quotes other names in `ls-files` output)",
-    "the project directory is the root of the git work tree (poetry-core hands back git's paths relative to the work tree)",
+    "no symbolic links, no build script / generate-setup-file, POSIX case-sensitive file system",
+    "the VCS-ignored list is an input of the model: the list the builder's own call to Git.get_ignored_files returned",
     "tar/zip/gzip/deflate encoders, tomli and `git` itself are trusted; metadata text is an opaque function of the project (C14)",
-    "wheel-from-sdist equality is demanded under the property's premise (wheel sources ⊆ sdist sources); the two configurations "
-    "for which the Lean counterexamples show it false (VCS-ignored file re-included for the sdist only; a wheel pattern matching the "
-    "generated PKG-INFO) are replayed separately as known deviations",
+    "every failure of the statement on the real builders is raised; failures belonging to a catalogued defect class carry that "
+    "class key (KNOWN_CLASSES, one fixed witness each, run every time) and are downgraded only through known_findings.json",
 ]
 
 US = "\x1f"
@@ -95,15 +93,25 @@ def _quiet() -> None:
     logging.getLogger("poetry.core").setLevel(logging.ERROR)
 
 
-def ignored_truth(root: Path) -> tuple[list[str] | None, list[str]]:
-    """(what git reports as untracked+ignored, NUL-separated = unquoted; the same list as poetry-core reads it)"""
-    if not (root / ".git").exists():
+def find_git_root(proj: Path) -> Path | None:
+    for d in [proj, *proj.parents]:
+        if (d / ".git").exists():
+            return d
+    return None
+
+
+def ignored_truth(proj: Path) -> tuple[list[str] | None, list[str]]:
+    """(untracked+ignored files below the project, relative to it, unquoted — the reference;
+    the list as poetry-core's present command line yields it — only a fallback for the model input)"""
+    groot = find_git_root(proj)
+    if groot is None:
         return None, []
     env = dict(os.environ, **c09_gen.GIT_ENV)
-    args = ["git", "--git-dir", (root / ".git").as_posix(), "--work-tree", root.as_posix(), "ls-files", "--others", "-i",
-            "--exclude-standard"]
-    z = subprocess.run([*args, "-z"], capture_output=True, check=True, env=env).stdout.decode("utf-8", "surrogateescape")
+    z = subprocess.run(["git", "-C", proj.as_posix(), "ls-files", "--others", "-i", "--exclude-standard", "-z"],
+                       capture_output=True, check=True, env=env).stdout.decode("utf-8", "surrogateescape")
     truth = [x for x in z.split("\0") if x]
+    args = ["git", "--git-dir", (groot / ".git").as_posix(), "--work-tree", groot.as_posix(), "ls-files", "--others", "-i",
+            "--exclude-standard"]
     txt = subprocess.run(args, capture_output=True, check=True, env=env).stdout.decode()
     return truth, txt.strip().split("\n")
 
@@ -114,23 +122,29 @@ def real_facts(root: Path, fmt: str) -> dict[str, Any]:
     from poetry.core.masonry.builders.sdist import SdistBuilder
     from poetry.core.masonry.builders.wheel import WheelBuilder
     _quiet()
+    from poetry.core.vcs.git import Git
+    seen: list[list[str]] = []
+    orig = Git.get_ignored_files
+
+    def recording(self: Any, *a: Any, **k: Any) -> list[str]:
+        r = orig(self, *a, **k)
+        seen.append(list(r))
+        return r
+
+    Git.get_ignored_files = recording  # type: ignore[method-assign]
     try:
         poetry = Factory().create_poetry(root)
         b = SdistBuilder(poetry) if fmt == "sdist" else WheelBuilder(poetry)
         files = b.find_files_to_add()
-        rp = root.resolve()
         pairs = sorted((f.relative_to_project_root().as_posix(),
                         (f.relative_to_source_root() if fmt == "sdist" else f.relative_to_target_root()).as_posix(),
                         "d" if f.path.is_dir() else "f") for f in files)
         excl = sorted(b.find_excluded_files(fmt))
-        vcs = None
-        from poetry.core.vcs import get_vcs
-        v = get_vcs(rp)
-        if v is not None:
-            vcs = v.get_ignored_files()
-        return {"ok": True, "pairs": pairs, "excluded": excl, "version": b._meta.version, "vcs": vcs}
+        return {"ok": True, "pairs": pairs, "excluded": excl, "version": b._meta.version, "vcs": seen[0] if seen else None}
     except Exception as e:  # noqa: BLE001
-        return {"ok": False, "err": err_name(e), "msg": str(e)[:200]}
+        return {"ok": False, "err": err_name(e), "msg": str(e)[:200], "vcs": seen[0] if seen else None}
+    finally:
+        Git.get_ignored_files = orig  # type: ignore[method-assign]
 
 
 def real_build(root: Path, fmt: str, out: Path) -> dict[str, Any]:
@@ -257,22 +271,42 @@ class Facts:
         return out
 
 
+def vcs_class(spec: dict[str, Any], q: str) -> str | None:
+    """known class of a VCS-ignored path that poetry-core fails to recognise as ignored"""
+    g = spec.get("git") or {}
+    if g.get("subdir"):
+        return "vcs-ignored-in-git-subdirectory"
+    if any(ord(c) > 126 or c in '"\\' or ord(c) < 32 for c in q):
+        return "vcs-ignored-non-ascii-name"
+    return None
+
+
 def oracle_format(ctx: core.Ctx, spec: dict[str, Any], facts: Facts, fmt: str, srcs: dict[str, str], wit: dict[str, Any]) -> None:
-    """`srcs`: source path (project relative) → archive member name, for the files the archive really contains"""
+    """`srcs`: source path (project relative) → archive member name, for the files the archive really contains.
+    Every failure of the statement is raised; failures of a catalogued defect class carry that class key."""
     exp = facts.explicit(fmt)
     for f in sorted(srcs):
-        if fmt == "sdist" and facts.mandatory_sdist(f):
-            continue
         if f in facts.dirs:
+            continue
+        why = facts.hidden(f)
+        if fmt == "sdist" and facts.mandatory_sdist(f):
+            # pyproject.toml, readmes and scripts are demanded by the statement itself; legal files too, but a legal file
+            # that the user excluded / the VCS ignores / that is bytecode is shipped regardless
+            if f in facts.legal and (why or is_bytecode(f)) and not any(q in exp for q in prefixes(f)):
+                ctx.violate("legal-file-bypasses-exclude",
+                            f"sdist contains legal file {f!r} although {why or 'it is a bytecode file'} and no include re-adds it", wit)
             continue
         if is_bytecode(f):
             if not (f in exp and "__pycache__" not in f.split("/")):
                 ctx.violate(f"{fmt}:bytecode", f"{fmt} contains bytecode file {f!r} (member {srcs[f]!r}) that no {fmt} include names",
                             wit)
             continue
-        why = facts.hidden(f)
         if why and not any(q in exp for q in prefixes(f)):
-            ctx.violate(f"{fmt}:excluded-member", f"{fmt} contains {f!r} although {why} and no include for {fmt} re-adds it", wit)
+            key = f"{fmt}:excluded-member"
+            if "VCS" in why and not any(q in facts.excl for q in prefixes(f)):
+                hit = next(q for q in prefixes(f) if q in facts.ignored)
+                key = vcs_class(spec, hit) or key
+            ctx.violate(key, f"{fmt} contains {f!r} although {why} and no include for {fmt} re-adds it", wit)
     for f in sorted(exp & facts.files):
         if "__pycache__" in f.split("/"):
             continue
@@ -304,15 +338,13 @@ def split_field(s: str) -> list[str]:
     return s.split("\n") if s else []
 
 
-def run_project(ctx: core.Ctx, spec: dict[str, Any], stream: str, deviation: str | None = None) -> dict[str, Any]:
-    """materialise, build for real, compare with the model, run the oracle. Returns a small report."""
+def run_project(ctx: core.Ctx, spec: dict[str, Any], stream: str) -> None:
+    """materialise, build for real, compare with the model, run the property oracle"""
     tmp = Path(tempfile.mkdtemp(prefix="c09-"))
-    rep: dict[str, Any] = {"deviation_reproduced": False}
     dis = 0
     wit = {"op": "project", "spec": spec}
     try:
-        root = tmp / "proj"
-        c09_gen.materialise(spec, root)
+        root = c09_gen.materialise(spec, tmp / "proj")
         truth, as_poetry = ignored_truth(root)
         listing = c09_gen.listing(root)
         tree = enc_tree(listing)
@@ -320,9 +352,10 @@ def run_project(ctx: core.Ctx, spec: dict[str, Any], stream: str, deviation: str
         facts_w = real_facts(root, "wheel")
         version = facts_s.get("version") or facts_w.get("version") or spec["version"]
         cfg = enc_cfg(spec, root.name, version)
-        ign = "\n".join(as_poetry) if truth is not None else ""
-        if truth is not None and as_poetry == [""]:
-            ign = "\n"  # poetry-core's list is [""]: one empty entry
+        # the ignored list is an input of the model: exactly what the builder's call to the VCS returned
+        got = facts_s.get("vcs") if facts_s.get("vcs") is not None else facts_w.get("vcs")
+        ign_list = got if got is not None else (as_poetry if truth is not None else [])
+        ign = "\n" if ign_list == [""] else "\n".join(ign_list)
         lines: list[str] = []
         for fmt in ("sdist", "wheel"):
             lines += model_lines(fmt, tree, cfg, ign)
@@ -354,27 +387,28 @@ def run_project(ctx: core.Ctx, spec: dict[str, Any], stream: str, deviation: str
                     gd += 1
                     ctx.disagree("glob", {"base": base, "pattern": pat, "spec": spec}, real, mr)
         ctx.stream("glob", len(globs), gd)
-        # ---- ignored set: git (unquoted) vs what poetry-core obtains
-        if truth is not None:
-            got = facts_s.get("vcs") if facts_s["ok"] else (facts_w.get("vcs") if facts_w["ok"] else None)
-            if got is not None:
+        # ---- ignored set: git (unquoted, project relative) vs what poetry-core obtains; outside the two catalogued
+        # defect classes (sub-directory of the work tree, names git quotes) the two must coincide
+        if truth is not None and got is not None:
+            ctx.count("git:ignored-nonempty" if truth else "git:ignored-empty")
+            special = bool((spec.get("git") or {}).get("subdir")) or any(vcs_class(spec, t) for t in truth)
+            if not special:
                 bad = sorted(set(truth) ^ (set(got) - {""}))
                 ctx.stream("ignored", 1, 1 if bad else 0)
                 if bad:
                     ctx.disagree("ignored", {"spec": spec}, sorted(got), sorted(truth))
-                ctx.count("git:ignored-nonempty" if truth else "git:ignored-empty")
+            else:
+                ctx.count("git:subdir-or-quoted-name")
         # ---- selection / excluded set
         for fmt, rf in (("sdist", facts_s), ("wheel", facts_w)):
             ms, mm, me = model[fmt]
-            if rf["ok"]:
-                real_sel = ["ok", "\n".join(US.join(t) for t in rf["pairs"])]
-                real_exc = ["ok", "\n".join(sorted(set(rf["excluded"])))]
-            else:
-                real_sel = real_exc = ["err", rf["err"]]
             if ms[0] == "ok" and len(ms) > 1:
                 ms = ["ok", "\n".join(sorted(split_field(ms[1])))]
             if rf["ok"]:
-                real_sel = ["ok", "\n".join(sorted(split_field(real_sel[1])))]
+                real_sel = ["ok", "\n".join(sorted(US.join(t) for t in rf["pairs"]))]
+                real_exc = ["ok", "\n".join(sorted(set(rf["excluded"])))]
+            else:
+                real_sel = real_exc = ["err", rf["err"]]
             if real_sel != ms:
                 dis += 1
                 ctx.disagree(stream + ":select-" + fmt, spec, real_sel, ms)
@@ -387,14 +421,11 @@ def run_project(ctx: core.Ctx, spec: dict[str, Any], stream: str, deviation: str
         bs = real_build(root, "sdist", out / "s")
         bw = real_build(root, "wheel", out / "w")
         ok_both = bs["ok"] and bw["ok"]
-        sig = json.dumps([spec.get("packages"), spec.get("include"), spec.get("exclude"), sorted(spec["files"]), bool(spec.get("git"))],
+        sig = json.dumps([spec.get("packages"), spec.get("include"), spec.get("exclude"), sorted(spec["files"]), spec.get("git")],
                          sort_keys=True)
         ctx.case(sig, nontrivial=ok_both,
                  sample={"packages": spec.get("packages"), "include": spec.get("include"), "exclude": spec.get("exclude"),
-                         "git": bool(spec.get("git")), "files": len(spec["files"])} if ok_both and (spec.get("include") or spec.get("exclude")) else None)
-        if bs["ok"] != facts_s["ok"] or bw["ok"] != facts_w["ok"]:
-            # e.g. convert_script_files raising only in build
-            pass
+                         "git": spec.get("git"), "files": len(spec["files"])} if ok_both and (spec.get("include") or spec.get("exclude")) else None)
         facts = Facts(spec, root, truth)
         if bs["ok"]:
             names = sdist_names(bs["path"])
@@ -452,30 +483,34 @@ def run_project(ctx: core.Ctx, spec: dict[str, Any], stream: str, deviation: str
             if premise:
                 un = unpack_sdist(bs["path"], tmp / "unpacked")
                 b2 = real_build(un, "wheel", out / "w2")
-                # the two configurations in which the statement is known (and proved) false
-                vcs_dev = any(q in facts.ignored for f in s_src - w_src for q in prefixes(f))
                 if not b2["ok"]:
-                    # a declared package all of whose files are excluded has nothing left in the sdist
                     ctx.count("rebuild:err:" + b2["err"])
                     if os.environ.get("C09_DEBUG"):
                         print("REBUILD-ERR", b2["msg"], json.dumps({k: spec[k] for k in ("packages", "include", "exclude")}))
-                    rep["rebuild_err"] = b2["err"]
-                    pfw = facts.package_files("wheel") or set()
-                    if any((f in s_src) for f in pfw) and not deviation and not _some_package_emptied(spec, facts, s_src):
+                    if _some_package_emptied(spec, facts, s_src):
+                        ctx.violate("package-emptied-by-exclusion-rebuild-fails",
+                                    f"wheel builds from the tree but not from the unpacked sdist, where a declared package has no module left: {b2['msg']}", wit)
+                    else:
                         ctx.violate("wheel-from-sdist:build-fails", f"wheel builds from the tree but not from the unpacked sdist: {b2['msg']}", wit)
                 else:
                     same = sha(b2["path"]) == sha(bw["path"]) and b2["path"].name == bw["path"].name
                     ctx.count("rebuild:" + ("identical" if same else "different"))
                     if not same:
-                        rep["deviation_reproduced"] = True
                         n1, n2 = wheel_names(bw["path"]), wheel_names(b2["path"])
-                        diff = sorted(set(n1) ^ set(n2))
-                        if deviation is None and not vcs_dev:
+                        added = sorted(set(n2) - set(n1))
+                        # sdist-only files that the VCS hides in the tree but nothing hides in the unpacked sdist
+                        vcs_dev = sorted(f for f in s_src - w_src if any(q in facts.ignored for q in prefixes(f)))
+                        if "PKG-INFO" in [a.rsplit("/", 1)[-1] for a in added] and "PKG-INFO" not in facts.files:
+                            ctx.violate("wheel-pattern-matches-generated-PKG-INFO",
+                                        f"wheel built from the unpacked sdist additionally contains the generated PKG-INFO ({added[:3]})", wit)
+                        elif vcs_dev and not (set(n1) - set(n2)):
+                            ctx.violate("vcs-ignored-file-included-for-sdist-only",
+                                        f"wheel built from the unpacked sdist additionally contains {added[:3]}: {vcs_dev[:3]} VCS-ignored in the tree, "
+                                        "re-included for the sdist only", wit)
+                        else:
                             ctx.violate("wheel-from-sdist:differs",
-                                        f"wheel built from the unpacked sdist differs from the wheel built from the tree (members differing: {diff[:4]})", wit)
-                        elif deviation is None:
-                            ctx.count("rebuild:different-because-vcs-ignored-file-in-sdist")
-                    # model: select wheel on the unpacked tree = select wheel on the tree
+                                        f"wheel built from the unpacked sdist differs from the wheel built from the tree (members differing: {sorted(set(n1) ^ set(n2))[:4]})", wit)
+                    # model: select wheel on the unpacked tree
                     tree2 = enc_tree(c09_gen.listing(un))
                     cfg2 = enc_cfg(spec, un.name, version)
                     r2 = core.run_driver([core.line("members", "wheel", tree2, cfg2, "")])[0]
@@ -486,7 +521,6 @@ def run_project(ctx: core.Ctx, spec: dict[str, Any], stream: str, deviation: str
         ctx.stream(stream, 1, 1 if dis else 0)
     finally:
         shutil.rmtree(tmp, ignore_errors=True)
-    return rep
 
 
 def _some_package_emptied(spec: dict[str, Any], facts: Facts, s_src: set[str]) -> bool:
@@ -561,13 +595,24 @@ CORPUS = [
           include=[{"path": "docs/*.md", "format": ["wheel"]}, "docs"], exclude=["demo/sub", "docs/b.md"]),
 ]
 
-# configurations in which `wheel_from_sdist_eq` is false (Lean: C09.wheel_from_sdist_counterexample_*): replayed, never demanded
-DEVIATIONS: dict[str, dict[str, Any]] = {
+# Catalogued defect classes of poetry-core (class key → ONE fixed minimal witness, run every time).  A class key is raised
+# through ctx.violate like any other failure; `check` downgrades it to KNOWN-FINDING only while known_findings.json lists it.
+KNOWN_CLASSES: dict[str, dict[str, Any]] = {
+    # Lean: C09.wheel_from_sdist_counterexample_vcs
     "vcs-ignored-file-included-for-sdist-only": _base(
         {"demo/__init__.py": "", "demo/_version.py": "v = 1\n", ".gitignore": "_version.py\n"}, git={"tracked": False},
         include=["demo/_version.py"]),
+    # Lean: C09.wheel_from_sdist_counterexample_pkginfo
     "wheel-pattern-matches-generated-PKG-INFO": _base(
         {"demo/__init__.py": "", "NOTES": "n\n"}, include=[{"path": "*", "format": ["sdist", "wheel"]}]),
+    "package-emptied-by-exclusion-rebuild-fails": _base(
+        {"demo/__init__.py": "", "demo/data.txt": "d\n"}, exclude=["demo/*.py"]),
+    "vcs-ignored-in-git-subdirectory": _base(
+        {"demo/__init__.py": "", "demo/secret.txt": "s\n", ".gitignore": "*.txt\n"}, git={"tracked": False, "subdir": "pkgs/demo"}),
+    "vcs-ignored-non-ascii-name": _base(
+        {"demo/__init__.py": "", "demo/donn\u00e9es.txt": "s\n", ".gitignore": "*.txt\n"}, git={"tracked": False}),
+    "legal-file-bypasses-exclude": _base(
+        {"demo/__init__.py": "", "LICENSE": "l\n"}, exclude=["LICENSE"]),
 }
 
 
@@ -575,36 +620,60 @@ def correspondence(ctx: core.Ctx) -> None:
     fnmatch_stream(ctx, ctx.budget(1500, 20000))
     for spec in CORPUS:
         run_project(ctx, spec, "corpus")
-    for key, spec in DEVIATIONS.items():
-        rep = run_project(ctx, spec, "deviation", deviation=key)
-        ctx.count(f"deviation:{key}:" + ("reproduced" if rep["deviation_reproduced"] else "not-reproduced"))
+    for key, spec in KNOWN_CLASSES.items():
+        before = {v.key for v in ctx.violations}
+        sub = core.Ctx(ctx.prop, ctx.tier, ctx.seed)
+        run_project(sub, spec, "known-class")
+        _merge(ctx, sub)
+        ctx.count(f"known-class:{key}:" + ("reproduced" if any(v.key == key for v in sub.violations) else "not-reproduced"))
     n = ctx.budget(40, 800)
     for _ in range(n):
         spec = c09_gen.generate(ctx.rng)
         run_project(ctx, spec, "gen")
 
 
+def _merge(ctx: core.Ctx, sub: core.Ctx) -> None:
+    for v in sub.violations:
+        ctx.violate(v.key, v.what, v.witness)
+    ctx.disagreements += sub.disagreements
+    for k, n in sub.dist.items():
+        ctx.count(k, n)
+    for name, st in sub.streams.items():
+        ctx.stream(name, st["cases"], st["disagreements"])
+    ctx.evaluations += sub.evaluations
+    ctx.nontrivial |= sub.nontrivial
+
+
 def search(ctx: core.Ctx) -> None:
     """Proof or correspondence broke: run the oracle on the disagreeing projects again and on more generated ones."""
+    known = set(core.known_keys(PROP))
+
+    def found() -> bool:
+        return any(v.key not in known for v in ctx.violations)
+
     seen = 0
     for d in list(ctx.disagreements):
         spec = d["input"].get("spec") if isinstance(d["input"], dict) and "spec" in d["input"] else d["input"]
         if isinstance(spec, dict) and "files" in spec and seen < 30:
             seen += 1
             run_project(ctx, spec, "search")
-            if ctx.violations:
+            if found():
                 return
     for _ in range(ctx.budget(150, 600)):
         run_project(ctx, c09_gen.generate(ctx.rng), "search")
-        if ctx.violations:
+        if found():
             return
 
 
 def replay(ctx: core.Ctx, payload: dict[str, Any]) -> bool:
+    """re-run a recorded project; with a `key` in the witness: does exactly that failure class occur again?"""
     w = payload.get("witness", payload)
-    before = len(ctx.violations)
-    if w.get("op") == "deviation":
-        return bool(run_project(ctx, DEVIATIONS[w["key"]], "replay", deviation=w["key"])["deviation_reproduced"])
-    if w.get("op") == "project":
-        run_project(ctx, w["spec"], "replay")
-    return len(ctx.violations) > before
+    if w.get("op") != "project":
+        return False
+    sub = core.Ctx(ctx.prop, ctx.tier, ctx.seed)
+    run_project(sub, w["spec"], "replay")
+    want = w.get("key") or payload.get("key")
+    hit = [v for v in sub.violations if (v.key == want if want else True)]
+    for v in hit:
+        ctx.violate(v.key, v.what, v.witness)
+    return bool(hit)
